@@ -161,12 +161,24 @@ func runReplay(t *rapid.T, prop string, hostile bool) {
 	nReq := rapid.IntRange(2, 14).Draw(t, "nRequests")
 	writers := rapid.IntRange(1, 4).Draw(t, "writers")
 	var reqs []*proto.WriteRequest
-	badUTF8, unusual := false, false
+	badUTF8, unusual, refusedSeen := false, false, false
 	for i := 0; i < nReq; i++ {
 		var r *proto.WriteRequest
 		if hostile && rapid.IntRange(0, 3).Draw(t, "hostile") > 0 {
 			var u bool
-			r, u = gen.HostileRequest(t, pool, nil, newTag)
+			r, u = gen.HostileRequestRaw(t, pool, nil, newTag)
+			if gen.RefusedBeforeLogging(r) {
+				// must be answered with an error and must not reach the log
+				before := n.walF.last().LastOffset()
+				if _, err := n.write(r); err == nil {
+					t.Fatalf("C13: the leader accepted into its log a request that no replica can apply: %s", gen.FormatRequest(r))
+				}
+				if after := n.walF.last().LastOffset(); after != before {
+					t.Fatalf("C13: the leader answered %s with an error but appended it to its log (head %d -> %d)", gen.FormatRequest(r), before, after)
+				}
+				refusedSeen = true
+				continue
+			}
 			unusual = unusual || u
 			badUTF8 = badUTF8 || gen.HasBadUTF8(r)
 			reqs = append(reqs, r)
@@ -181,6 +193,9 @@ func runReplay(t *rapid.T, prop string, hostile bool) {
 			}
 		}
 		reqs = append(reqs, r)
+	}
+	if len(reqs) == 0 {
+		reqs = append(reqs, gen.WriteRequest(t, m, gen.ReqOpts{Pool: pool, Tag: newTag}))
 	}
 	// the image is taken right after the k-th commit from now on
 	k := rapid.IntRange(1, nReq).Draw(t, "crashAfterCommit")
@@ -322,6 +337,9 @@ func runReplay(t *rapid.T, prop string, hostile bool) {
 		}
 		if unusual {
 			labels = append(labels, "unusual_request")
+		}
+		if refusedSeen {
+			labels = append(labels, "refused_before_logging")
 		}
 		// non-trivial for C13: hostile content was actually replayed by BecomeLeader
 		evid.Case("C13", c < last && (unusual || badUTF8), "replay "+desc+" "+gen.FormatRequest(reqs[len(reqs)-1]), labels...)
